@@ -5,7 +5,7 @@
 
     Array_Push / List_Push        Alloc (zero-fill) then assign                      seqPush: one construction
     Array_Push_At                 throw (bounds) BEFORE Reserve/memmove/Alloc/assign  arrayPushAt: a refused call changes nothing
-    List_Push_At                  List_Alloc, assign BEFORE List_At (which throws)    listPushAt: a refused call has constructed (leak)
+    List_Push_At                  List_At (which throws) BEFORE List_Alloc, assign    listPushAt: a refused call changes nothing (fix 4077d96)
     Array_Pop / Pop_At, List_*    throw, then one destruct, then the byte move        seqPop / seqPopAt: one retired
     Array_Set / List_Set          assign onto the stored element, no destruct         seqSetProbe: in place
     Array_Clear / List_Clear      destruct in a loop, free                            seqClear
@@ -47,7 +47,7 @@ def modelledProfile : List (String × List String) := [
   ("List_Pop_At", ["List_At", "List_Unlink", "destruct", "List_Free"]),
   ("List_Rem", ["List_Unlink", "destruct", "List_Free", "throw"]),
   ("List_Push", ["List_Alloc", "assign", "List_Link"]),
-  ("List_Push_At", ["List_Alloc", "assign", "List_Link", "List_At", "List_Link"]),
+  ("List_Push_At", ["List_At", "List_Alloc", "assign", "List_Link", "List_Link"]),
   ("List_Pop", ["throw", "List_Unlink", "destruct", "List_Free"]),
   ("List_Set", ["assign", "List_At"]),
   ("List_Resize", ["List_Clear", "List_Unlink", "destruct", "List_Free", "List_Alloc", "List_Link"]),
